@@ -154,7 +154,7 @@ def run(ctx) -> None:
                              do_cert=(j % 8 == 0 or n == 3), do_lp=(j % 64 == ctx.shard or (n == 3 and j % 2 == 0)))
                 ctx.count("exhaustive_K_sweeps")
                 ctx.count(f"exhaustive_K_sweeps_n{n}")
-    ns = [2, 3, 4, 5, 5, 6, 6] + ([7] if not quick else [])
+    ns = [2, 3, 4, 5, 5, 6, 6, 7]
     big = 0
     for n, fam, values, exact in boundcore.pick_cases(ctx, ns, gen.SA_FAMILIES):
         if ctx.out_of_time(1.0):
